@@ -48,7 +48,10 @@ def scn_for(name, specs, alter=None, two_events=False, noplacement=False, hft=Fa
         evnames = ["E", "E2"]
     # the event is listed under the FIRST session; its hooks are registered for the whole run
     sessions = [S(0, 2, True, False, maxNormalOrders=2, events=evnames, **hk), S(1, 2, True, True, maxNormalOrders=2, **hk)]
-    if noplacement:
+    if noplacement == "zero_steps":
+        # a configured session of zero steps between two trading sessions: it still begins and ends
+        sessions = [S(0, 2, True, True, maxNormalOrders=2, events=evnames), S(1, 0, True, True), S(2, 1, True, True, maxNormalOrders=2)]
+    elif noplacement:
         # a session without order placement (steps in which nobody is asked) between two trading sessions
         sessions = [S(0, 1, True, True, maxNormalOrders=2, events=evnames), S(1, 2, False, False), S(2, 1, True, True, maxNormalOrders=2)]
     return Scenario(name, mkcfg(sessions, markets=markets, agents=ags, events=ev))
@@ -100,6 +103,11 @@ def single_scenarios():
         n = "late_registration:%s" % "+".join("%s-%s" % (x[0], "before" if x[1] else "after") for x in late)
         sc[n] = scn_for(n, [["execution", False, None, None]])
         sc[n].cfg["E"].update(late_hooks=late, late_on="execution")
+    for (ty, b) in HOOK_KINDS:
+        if ty in ("session", "market"):
+            for tm in (None, [2]):
+                n = "single:%s:zero_step_session" % spec_name([ty, b, tm, None])
+                sc[n] = scn_for(n, [[ty, b, tm, None]], noplacement="zero_steps")
     # one event entry listed under both sessions: two instances, each with all its hooks
     for specs in ([["order", False, None, None], ["market", True, [1, 3], None]], [["session", True, None, None], ["execution", False, None, None], ["cancel", True, [2], None]]):
         n = "listed_under_both_sessions:%s" % "+".join(spec_name(x) for x in specs)
